@@ -63,14 +63,17 @@ Definition C18_partial_statement : Prop :=
                | Err e1, Err e2 => e1 = e2
                | OutOfFuel, OutOfFuel => True
                | _, _ => False
-               end).
+               end)
+  (* isinstance (as the source now reads - gotrans): the same answer for a frozen value as for the ordinary one *)
+  /\ (forall v tys single,
+        isinstance_model isinstance_unwraps v tys single = isinstance_model isinstance_unwraps (unfreeze v) tys single).
 
 Theorem C18_partial : C18_partial_statement.
 Proof.
   exact (conj accepting_indifferent_list (conj accepting_indifferent_dict (conj natives_reject_frozen
         (conj zip_rejects_frozen (conj eq_never_equal (conj int_times_frozen_rejected
         (conj add_agrees_with_source (conj sum_is_fresh_plain_list (conj sum_consumers_indifferent
-        (conj union_erases_freeze_left (conj union_refuses_frozen_right config_consumers_indifferent))))))))))).
+        (conj union_erases_freeze_left (conj union_refuses_frozen_right (conj config_consumers_indifferent isinstance_indifferent)))))))))))).
 Qed.
 Print Assumptions C18_partial.
 
@@ -101,7 +104,9 @@ Example C18_sum_nonvacuous :
   /\ consume_sum 50 BEqSame (apply_bin Asp 50 Add EMPTY FROZEN st1) = BVal (OBool true)
   /\ classify_add st1 (apply_bin Asp 50 Add EMPTY FROZEN st1) = RFresh
   /\ add_eval list_add_tree (kind_of FROZEN) true false = RFresh
-  /\ add_eval shortcut_tree (kind_of FROZEN) true false = ROperand.
+  /\ add_eval shortcut_tree (kind_of FROZEN) true false = ROperand
+  /\ isinstance_model isinstance_unwraps FROZEN [s "list"] true = true
+  /\ isinstance_model false FROZEN [s "list"] true = false.
 Proof. vm_compute. repeat split. Qed.
 
 Example C18_config_nonvacuous :
